@@ -43,6 +43,10 @@ def python_half(ctx, py: PyRepo):
     # is part of the instantiation algebra (a metavariable it loses is silently not instantiated) - shared with C12
     from .c12 import metavars_arms
     metavars_arms(ctx, py)
+    # the capture checks of the binder arms ask `plug.evar_is_free(bound variable)`: a freshness answer that is "fresh" where the
+    # variable may occur lets the substitution go under the binder and capture it (shared with C06 / C07)
+    from . import c06
+    c06.python_half(ctx, py)
 
 
 def simultaneity(ctx, py: PyRepo):
